@@ -130,6 +130,16 @@ FRAGMENTS = [
     lambda r: "<li>%s</li>" % words(r, 2),
     lambda r: "<td>%s</td><tr><td>x" % words(r, 2),
     lambda r: "<span style=\"display:none\">%s</span><div style=\"visibility:hidden\">%s</div>" % (words(r, 2), words(r, 2)),
+    # the trigger attributes on every structural HTML element, not only on div/span/table
+    lambda r: "<%s%s>%s</%s>" % ((lambda t: (t, attrs(r), "".join("<li%s>%s</li>" % (attrs(r) if r.random() < 0.3 else "", words(r, 2))
+                                                           for _ in range(r.randint(1, 3))), t))(r.choice(("ul", "ol")))),
+    lambda r: "<dl%s><dt%s>%s</dt><dd%s>%s</dd></dl>" % (attrs(r), attrs(r), words(r, 1), attrs(r), words(r, 2)),
+    lambda r: "<table%s><caption%s>%s</caption><tr%s><td%s>%s</td><th%s>%s</th></tr></table>" % (
+        attrs(r), attrs(r), words(r, 1), attrs(r), attrs(r), words(r, 2), attrs(r), words(r, 1)),
+    lambda r: "<%s%s>%s</%s>" % ((lambda t: (t, attrs(r), words(r, 3), t))(r.choice(
+        ("p", "center", "blockquote", "big", "small", "b", "i", "u", "s", "sup", "sub", "h3", "pre", "code", "tt", "cite", "font", "strike")))),
+    lambda r: "<ref%s>%s</ref><references%s/>" % (attrs(r), words(r, 2), attrs(r)),
+    lambda r: "<gallery%s>\nFile:A.png|%s\n</gallery>" % (attrs(r), words(r, 2)),
 ]
 
 
